@@ -317,6 +317,61 @@ func TestVerifC16(t *testing.T) {
 			r.EvalN(fmt.Sprintf("field-%s:%s", f.name, cl), nops)
 		})
 
+		// operands SOLVED so that the result's internal (Montgomery) representation lands on the edges
+		// of the final conditional subtraction: limbs 0, 1, 2, m-1, m-2, 2^256-m-1 … (value = t * 2^-256 mod m)
+		{
+			rinv := new(big.Int).ModInverse(c16B256, m)
+			var edges []*big.Int
+			for _, t := range []*big.Int{big.NewInt(0), big.NewInt(1), big.NewInt(2), new(big.Int).Sub(m, c16One), new(big.Int).Sub(m, big.NewInt(2)),
+				new(big.Int).Sub(c16B256, m), new(big.Int).Sub(new(big.Int).Sub(c16B256, m), c16One), new(big.Int).Lsh(c16One, 255), new(big.Int).Sub(new(big.Int).Lsh(c16One, 192), c16One),
+				new(big.Int).Lsh(c16One, 64), new(big.Int).Sub(new(big.Int).Lsh(c16One, 64), c16One), new(big.Int).Lsh(c16One, 128)} {
+				tt := new(big.Int).Mod(t, m)
+				edges = append(edges, mod(new(big.Int).Mul(tt, rinv))) // value whose Montgomery form is t
+				edges = append(edges, tt)                              // and the plain value t itself
+			}
+			nEdge := 0
+			for _, v := range edges {
+				for rep := 0; rep < hk.N(20, 200); rep++ {
+					a := mod(new(big.Int).SetBytes(rng.Bytes(32)))
+					if a.Sign() == 0 {
+						continue
+					}
+					ea, _ := f.set(c16b32(a))
+					// a * b = v
+					b := mod(new(big.Int).Mul(v, new(big.Int).ModInverse(a, m)))
+					eb, _ := f.set(c16b32(b))
+					chk("mul-edge", f.mul(ea, eb), v, a, b)
+					// a + c = v, a - d = v
+					c := mod(new(big.Int).Sub(v, a))
+					ec, _ := f.set(c16b32(c))
+					chk("add-edge", f.add(ea, ec), v, a, c)
+					dd := mod(new(big.Int).Sub(a, v))
+					ed, _ := f.set(c16b32(dd))
+					chk("sub-edge", f.sub(ea, ed), v, a, dd)
+					// s^2 = v when v is a square: use v' = s^2 for s = a instead
+					chk("square-edge", f.square(ea), mod(new(big.Int).Mul(a, a)), a)
+					if f.opp != nil {
+						ev, _ := f.set(c16b32(mod(new(big.Int).Neg(v))))
+						chk("opp-edge", f.opp(ev), v, mod(new(big.Int).Neg(v)))
+					}
+					nEdge += 5
+				}
+			}
+			// negation / subtraction / addition of zero and of the extremes, raw canonicity included
+			zero, _ := f.set(c16b32(big.NewInt(0)))
+			top, _ := f.set(c16b32(new(big.Int).Sub(m, c16One)))
+			if f.opp != nil {
+				chk("opp-zero", f.opp(zero), big.NewInt(0))
+			}
+			chk("sub-zero-zero", f.sub(zero, zero), big.NewInt(0))
+			chk("add-top-one", f.add(top, f.one()), big.NewInt(0))
+			chk("sub-zero-one", f.sub(zero, f.one()), new(big.Int).Sub(m, c16One))
+			chk("mul-top-top", f.mul(top, top), big.NewInt(1))
+			chk("mul-zero-top", f.mul(zero, top), big.NewInt(0))
+			chk("square-zero", f.square(zero), big.NewInt(0))
+			r.EvalN(fmt.Sprintf("field-%s:edge-results", f.name), nEdge+8)
+		}
+
 		// one / zero
 		chk("one", f.one(), big.NewInt(1))
 		chk("zero-value", f.zero(), big.NewInt(0))
